@@ -38,6 +38,8 @@ type FakeKafka struct {
 	LeaderFn     func(topic string, partition int32) (int32, bool) // ok=false: error / no leader
 	OffsetsFn    func(broker int32, request []TopicPartition) ([]BlockAnswer, bool)
 	GroupsFn     func() (map[string]string, bool)
+	// FaultErr is the error a scripted failure of Topics / Partitions / Leader returns (nil: a generic error)
+	FaultErr error
 
 	mu           sync.Mutex
 	RefreshCalls int
@@ -53,19 +55,26 @@ type fakeBroker struct {
 
 var errFake = errors.New("verif: injected fault")
 
+func (k *FakeKafka) fault() error {
+	if k.FaultErr != nil {
+		return k.FaultErr
+	}
+	return errFake
+}
+
 func (c *fakeClient) Config() *sarama.Config          { return sarama.NewConfig() }
 func (c *fakeClient) Brokers() []helpers.SaramaBroker { return nil }
 func (c *fakeClient) Topics() ([]string, error) {
 	t, ok := c.k.TopicsFn()
 	if !ok {
-		return nil, errFake
+		return nil, c.k.fault()
 	}
 	return t, nil
 }
 func (c *fakeClient) Partitions(topic string) ([]int32, error) {
 	p, ok := c.k.PartitionsFn(topic)
 	if !ok {
-		return nil, errFake
+		return nil, c.k.fault()
 	}
 	return p, nil
 }
@@ -73,7 +82,7 @@ func (c *fakeClient) WritablePartitions(topic string) ([]int32, error) { return 
 func (c *fakeClient) Leader(topic string, partitionID int32) (helpers.SaramaBroker, error) {
 	id, ok := c.k.LeaderFn(topic, partitionID)
 	if !ok {
-		return nil, errFake
+		return nil, c.k.fault()
 	}
 	return &fakeBroker{k: c.k, id: id}, nil
 }
